@@ -379,8 +379,14 @@ func runM4(run *vlib.Run) {
 		}
 	}
 	bscs := batchScenarios()
-	run.Set("m4_scenarios", len(scs)+len(bscs))
-	section(run, offM4, len(scs)+len(bscs), 1, func(k int) {
+	wscs := wsCancelScenarios()
+	run.Set("m4_scenarios", len(scs)+len(bscs)+len(wscs))
+	section(run, offM4, len(scs)+len(bscs)+len(wscs), 1, func(k int) {
+		if k >= len(scs)+len(bscs) {
+			e := env
+			e.runWSCancelScenario(run, offM4+k, wscs[k-len(scs)-len(bscs)])
+			return
+		}
 		if k >= len(scs) {
 			env.runBatchScenario(run, offM4+k, bscs[k-len(scs)])
 			return
